@@ -22,6 +22,9 @@
  *   setlevel <handler index> <level>            (muggle_log_handler_set_level between two calls; any level)
  *   failmalloc <k>                              (seq: k-th tracked malloc of the next log fails)
  *   log <level> <srcline> <s|ds|lit> <hex text> (seq)
+ *   hold <level> <srcline> <s|ds|lit> <hex>     (seq, async: like log; the writer thread stops inside
+ *                                                 handler 0's write of this message until "release")
+ *   release
  *   threads <n> <msgs> <paylen>                 (thr, vs)
  *   sched <spec>                                (vs)
  * Clock (timespec_get, time), thread id (syscall gettid), malloc family, fwrite,
@@ -226,10 +229,12 @@ typedef struct {
 void *__real_malloc(size_t n);
 void __real_free(void *p);
 
+static void gate_in_cap_write(int idx);
 static int cap_write(struct muggle_log_handler *base, const muggle_log_msg_t *msg)
 {
 	cap_handler_t *h = (cap_handler_t *)base;
 	char buf[LIMIT];
+	gate_in_cap_write(h->idx);
 	muggle_log_fmt_t *fmt = muggle_log_handler_get_fmt(base);
 	if (fmt == NULL) return -1;
 	int ret = fmt->fmt_func(msg, buf, sizeof(buf));
@@ -257,7 +262,7 @@ static int cap_destroy(muggle_log_handler_t *base) { return muggle_log_handler_d
 /* ---------------- case state ---------------- */
 typedef struct { char kind[12]; int level; int fmt; } hspec_t;
 typedef struct { int kind; int a, b; char tmpl[8]; unsigned char *text; size_t tlen; } op_t;
-enum { OP_LOG = 1, OP_FAIL = 2, OP_SETLEVEL = 3 };
+enum { OP_LOG = 1, OP_FAIL = 2, OP_SETLEVEL = 3, OP_HOLD = 4, OP_RELEASE = 5 };
 
 static int is_async, capacity;
 static hspec_t hs[MAXH];
@@ -277,6 +282,7 @@ static union {
 	muggle_log_file_time_rot_handler_t trot;
 } H[MAXH];
 static int h_ok[MAXH], h_added[MAXH];
+static long g_rot_max[MAXH], g_rot_backups[MAXH];
 static char h_path[MAXH][600];
 static muggle_sync_logger_t sync_logger;
 static muggle_async_logger_t async_logger;
@@ -356,7 +362,9 @@ static void case_line(char *line)
 		if (sscanf(line, "%*s %d %d", &ops[nops].a, &ops[nops].b) == 2) { ops[nops].kind = OP_SETLEVEL; ops[nops].text = NULL; nops++; }
 	} else if (strcmp(op, "failmalloc") == 0 && nops < MAXOPS) {
 		if (sscanf(line, "%*s %d", &ops[nops].a) == 1) { ops[nops].kind = OP_FAIL; ops[nops].text = NULL; nops++; }
-	} else if (strcmp(op, "log") == 0 && nops < MAXOPS) {
+	} else if (strcmp(op, "release") == 0 && nops < MAXOPS) {
+		ops[nops].kind = OP_RELEASE; ops[nops].text = NULL; nops++;
+	} else if ((strcmp(op, "log") == 0 || strcmp(op, "hold") == 0) && nops < MAXOPS) {
 		int used = 0;
 		op_t *o = &ops[nops];
 		if (sscanf(line, "%*s %d %d %7s %n", &o->a, &o->b, o->tmpl, &used) >= 3) {
@@ -365,7 +373,7 @@ static void case_line(char *line)
 			o->text = (unsigned char *)__real_malloc(hl / 2 + 1);
 			o->tlen = unhex(hx, o->text, hl / 2);
 			o->text[o->tlen] = 0;
-			o->kind = OP_LOG;
+			o->kind = strcmp(op, "hold") == 0 ? OP_HOLD : OP_LOG;
 			nops++;
 		}
 	} else if (strcmp(op, "threads") == 0) {
@@ -449,8 +457,10 @@ static int setup(void)
 			rc = muggle_log_file_rotate_handler_init(&H[i].rot, h_path[i], 1u << 30, 2);
 		} else if (strcmp(hs[i].kind, "rots") == 0) {
 			/* many rotations during the run; enough backups that none is discarded */
-			rc = muggle_log_file_rotate_handler_init(&H[i].rot, h_path[i],
-				g_mode == M_VS ? 64 : 400, g_mode == M_VS ? 24 : 600);
+			/* sized from the scenario: every line of every thread fits in the retained backups with a margin */
+			g_rot_max[i] = g_mode == M_VS ? 64 : 400;
+			g_rot_backups[i] = (long)th_n * th_msgs * (th_paylen + 120) / g_rot_max[i] + 32;
+			rc = muggle_log_file_rotate_handler_init(&H[i].rot, h_path[i], (unsigned)g_rot_max[i], (unsigned)g_rot_backups[i]);
 		} else if (strcmp(hs[i].kind, "trots") == 0) {
 			rc = muggle_log_file_time_rot_handler_init(&H[i].trot, h_path[i], MUGGLE_LOG_TIME_ROTATE_UNIT_SEC, 2, false);
 		} else if (strcmp(hs[i].kind, "trot") == 0) {
@@ -501,7 +511,7 @@ static int cmp_name(const void *a, const void *b) { return strcmp((const char *)
 static void dump_concat(int i, int by_number)
 {
 	static unsigned char *buf;
-	static char names[1024][80];
+	static char names[8192][80];
 	size_t cap = 16u << 20, n = 0;
 	int nn = 0;
 	char prefix[64], path[700];
@@ -510,7 +520,7 @@ static void dump_concat(int i, int by_number)
 	DIR *d = opendir(scratch);
 	struct dirent *e;
 	while (d && (e = readdir(d)) != NULL)
-		if (strncmp(e->d_name, prefix, strlen(prefix)) == 0 && nn < 1024) {
+		if (strncmp(e->d_name, prefix, strlen(prefix)) == 0 && nn < 8192) {
 			if (by_number) snprintf(names[nn], 80, "%09ld", 999999999L - atol(e->d_name + strlen(prefix)));   /* oldest = highest number */
 			else snprintf(names[nn], 80, "%s", e->d_name + strlen(prefix));
 			nn++;
@@ -528,6 +538,8 @@ static void dump_concat(int i, int by_number)
 		FILE *f = fopen(path, "rb");
 		if (f) { n += fread(buf + n, 1, cap - n, f); fclose(f); }
 	}
+	/* retention: a size-rotating handler keeps backup_count backups; more rotations than that discard the oldest */
+	if (by_number) printf("retention %d files=%d max=%ld\n", i, nn, g_rot_backups[i]);
 	printf("file %d ", i);
 	hexout(buf, n);
 	printf("\n");
@@ -604,7 +616,7 @@ static void print_oracles(void)
 	for (int i = 0; i < nops; i++) {
 		op_t *o = &ops[i];
 		size_t fl;
-		if (o->kind != OP_LOG) continue;
+		if (o->kind != OP_LOG && o->kind != OP_HOLD) continue;
 		if (strcmp(o->tmpl, "ds") == 0) fl = (size_t)snprintf((char *)full, sizeof(full), "%d|%s", o->b, (char *)o->text);
 		else { fl = o->tlen < sizeof(full) - 1 ? o->tlen : sizeof(full) - 1; memcpy(full, o->text, fl); full[fl] = 0; }
 		if (fl >= sizeof(full)) fl = sizeof(full) - 1;
@@ -618,29 +630,75 @@ static void print_oracles(void)
  * driver first waits until the writer thread has finished every message logged so far (all
  * message blocks released: the allocation count is back to what it was after setup). */
 static int g_base_live;
+static double mono_now(void)
+{
+	struct timespec ts;
+	clock_gettime(CLOCK_MONOTONIC, &ts);
+	return (double)ts.tv_sec + (double)ts.tv_nsec * 1e-9;
+}
 static void async_fence(void)
 {
 	if (!is_async) return;
-	for (int spin = 0; spin < 5000000 && c16_acct_live() != g_base_live; spin++)
-		if ((spin & 1023) == 1023) sched_yield();
+	double t0 = mono_now();
+	while (c16_acct_live() != g_base_live && mono_now() - t0 < 20.0) sched_yield();
 	if (c16_acct_live() != g_base_live) printf("fence timeout\n");
+}
+
+/* hold / release: the writer thread is stopped inside handler 0's write (a capture handler) of
+ * the "hold" message; calls made meanwhile stay queued; "release" lets it go on.  This makes
+ * "the handler's level at the time the writer thread PROCESSES a message" observable: a level
+ * changed while a message is queued applies to that message. */
+static volatile int g_gate_armed, g_gate_entered, g_gate_open, g_held;
+static void gate_in_cap_write(int idx)
+{
+	if (idx != 0 || !__atomic_load_n(&g_gate_armed, __ATOMIC_SEQ_CST)) return;
+	__atomic_store_n(&g_gate_armed, 0, __ATOMIC_SEQ_CST);
+	__atomic_store_n(&g_gate_entered, 1, __ATOMIC_SEQ_CST);
+	double t0 = mono_now();
+	while (!__atomic_load_n(&g_gate_open, __ATOMIC_SEQ_CST) && mono_now() - t0 < 30.0) sched_yield();
+}
+static void do_release(void)
+{
+	if (!g_held) return;
+	__atomic_store_n(&g_gate_open, 1, __ATOMIC_SEQ_CST);
+	g_held = 0;
+	async_fence();
 }
 
 static void run_seq(void)
 {
 	g_base_live = c16_acct_live();
+	g_gate_armed = g_gate_entered = g_gate_open = g_held = 0;
 	for (int i = 0; i < nops; i++) {
 		op_t *o = &ops[i];
 		if (o->kind == OP_SETLEVEL) {
-			async_fence();
+			if (!g_held) async_fence();
 			if (o->a >= 0 && o->a < nh && h_ok[o->a]) muggle_log_handler_set_level(&H[o->a].base, o->b);
 		} else if (o->kind == OP_FAIL) {
 			c16_acct_fail_at(o->a);
+		} else if (o->kind == OP_RELEASE) {
+			do_release();
+		} else if (o->kind == OP_HOLD && is_async && !g_held) {
+			/* only when handler 0 (a capture handler) accepts the message: it then stops inside its write */
+			int stops = nh > 0 && h_ok[0] && h_added[0] && strcmp(hs[0].kind, "cap") == 0 &&
+				muggle_log_handler_should_write(&H[0].base, o->a);
+			if (stops) {
+				async_fence();
+				g_gate_entered = 0; g_gate_open = 0;
+				__atomic_store_n(&g_gate_armed, 1, __ATOMIC_SEQ_CST);
+			}
+			do_log(o->a, o->b, o->tmpl, o->text);
+			if (stops) {
+				double t0 = mono_now();
+				while (!__atomic_load_n(&g_gate_entered, __ATOMIC_SEQ_CST) && mono_now() - t0 < 20.0) sched_yield();
+				if (g_gate_entered) g_held = 1; else { g_gate_armed = 0; printf("hold timeout\n"); }
+			}
 		} else {
 			do_log(o->a, o->b, o->tmpl, o->text);
 			c16_acct_fail_at(0);
 		}
 	}
+	do_release();
 	logger->destroy(logger);
 	destroyed = 1;
 }
